@@ -90,6 +90,9 @@ func bulkKinds() []bulkKind {
 		{"malformed-create", "CREATE_TRANSACTION", `{"postings":"nope"}`, nil},
 		{"malformed-revert", "REVERT_TRANSACTION", `"x"`, nil},
 		{"add-metadata-bad-target", "ADD_METADATA", `{"targetType":"TRANSACTION","targetId":"abc","metadata":{"k":"v"}}`, nil},
+		{"add-metadata-numeric-account", "ADD_METADATA", `{"targetType":"ACCOUNT","targetId":5,"metadata":{"k":"v"}}`, nil},
+		{"add-metadata-unknown-target-type", "ADD_METADATA", `{"targetType":"LEDGER","targetId":"a","metadata":{"k":"v"}}`, nil},
+		{"delete-metadata-null-tx", "DELETE_METADATA", `{"targetType":"TRANSACTION","targetId":null,"key":"k"}`, nil},
 		{"delete-metadata-bad-target", "DELETE_METADATA", `{"targetType":"TRANSACTION","targetId":{"x":1},"key":"k"}`, nil},
 	}
 }
